@@ -1,7 +1,9 @@
 """C18 - interchangeable data-pipeline implementations produce the same samples.
 
-Part `frameworks` (differential between the three user-selectable data frameworks):
-a synthesised label set (1-2 PNG videos of possibly different size and channel count,
+Parts `frameworks` (joint axis; carries the thorough budget, regression inputs name it) and
+`fw-<model type>-scale-<1|down|up>` (quick tier: one stratum each, so that every model
+type x scale class is explored under every seed) - differential between the three
+user-selectable data frameworks: a synthesised label set (1-2 PNG videos of possibly different size and channel count,
 NaN patterns incl. missing anchor, empty instances, all-empty frames, predicted
 instances, user+predicted pairs) and a configuration (model type x scale, source
 channels x is_rgb, max_stride x head strides, sigmas, max_hw x route, anchor, crop) are
@@ -215,10 +217,12 @@ def _write_chunks(res, kind, fn, inputs, outdir, real_optimize):
     if real_optimize:
         import litdata as ld
 
-        with _Quiet():
-            out = runner.guarded(res, f"frameworks:{kind}:ld.optimize", ld.optimize, fn=fn, inputs=inputs, output_dir=outdir, num_workers=1, chunk_size=100)
-        if out is runner.FAILED:
-            return out
+        try:
+            with _Quiet():
+                ld.optimize(fn=fn, inputs=inputs, output_dir=outdir, num_workers=1, chunk_size=100)
+        except Exception as e:  # noqa: BLE001  (a chunk function failing in the worker surfaces as a litdata error here)
+            _fail(res, f"frameworks:{kind}:ld.optimize:raise", f"ld.optimize failed on valid labelled frames: {type(e).__name__}: {str(e)[:300]}")
+            return runner.FAILED
         if not any(f.endswith(".bin") for f in os.listdir(outdir)):
             _fail(res, f"frameworks:{kind}:ld.optimize:no-chunks", "ld.optimize finished without writing a chunk file (worker failed)")
             return runner.FAILED
@@ -712,9 +716,7 @@ def eval_datapipes(case):
             e_img, e_kp = apply_resizer(img.clone(), kp.clone(), scale=case["scale"])
             same(ik, out[0][ik], e_img)
             same(kk, out[0][kk], e_kp)
-            if case["keep_original"] and block == "resizer_instance":
-                same("original_image", out[0]["original_image"], img)
-            elif case["keep_original"]:
+            if case["keep_original"]:  # no functional counterpart: the documented meaning is "the image as it came in"
                 same("original_image", out[0]["original_image"], img)
         res.nontrivial = case["scale"] != 1.0
         res.cls(f"resizer:scale={case['scale']}")
@@ -846,26 +848,31 @@ def strategy_datapipes():
 # ----------------------------------------------------------------------------------
 
 
-FW_BUDGET = {  # (quick, thorough) examples per (model type, scale class) stratum
-    "1": (45, 4000), "down": (35, 3200), "up": (25, 2400),
-}
-FW_BUDGET_CENTERED = {"1": (60, 5600), "down": (15, 1600), "up": (15, 1600)}  # scale != 1: only mem-vs-npz is judged
+FW_BUDGET = {"1": 45, "down": 35, "up": 25}  # quick-tier examples per (model type, scale class) stratum
+FW_BUDGET_CENTERED = {"1": 55, "down": 15, "up": 15}  # scale != 1: only mem-vs-npz is judged
 
 
 def _fw_part(kind, sc):
-    q, t = (FW_BUDGET_CENTERED if kind == "centered" else FW_BUDGET)[sc]
+    q = (FW_BUDGET_CENTERED if kind == "centered" else FW_BUDGET)[sc]
     return Part(
         name=f"fw-{kind}-scale-{sc}", evaluate=eval_frameworks, strategy=functools.partial(strategy_frameworks, kind, sc),
-        summarize=summarize_frameworks, budget={"quick": q, "thorough": t},
+        summarize=summarize_frameworks, budget={"quick": q},
         # scale 1: non-trivial only when size matching is active or an anchor is missing (about half of the cases)
-        min_nontrivial={"quick": max(2, q // (6 if sc == "1" else 3)), "thorough": t // (6 if sc == "1" else 3)},
+        min_nontrivial={"quick": max(2, q // (6 if sc == "1" else 3))},
     )
 
 
 def parts(tier):
-    ps = [_fw_part(kind, sc) for kind in KINDS for sc in ("1", "down", "up")]
+    """quick: one Part per (model type, scale class) stratum + a small joint Part; thorough: the joint Part carries the
+    budget (16 spawned workers per Part cost ~40 s of imports, 13 sharded Parts took 12 min) + the real ld.optimize."""
+    ps = []
+    if tier == "quick":
+        ps += [_fw_part(kind, sc) for kind in KINDS for sc in ("1", "down", "up")]
+    # the joint Part exists in both tiers (regression inputs name it)
+    ps.append(Part(name="frameworks", evaluate=eval_frameworks, strategy=strategy_frameworks, summarize=summarize_frameworks,
+                   budget={"quick": 40, "thorough": 40000}, min_nontrivial={"quick": 8, "thorough": 8000}))
     ps.append(Part(name="datapipes", evaluate=eval_datapipes, strategy=strategy_datapipes,
-                   budget={"quick": 700, "thorough": 32000}, min_nontrivial={"quick": 150, "thorough": 6000}))
+                   budget={"quick": 700, "thorough": 48000}, min_nontrivial={"quick": 150, "thorough": 9000}))
     if tier == "thorough":
         # real ld.optimize: spawns its own worker process (not allowed inside the daemonic shard workers) -> one shard, main process
         ps.append(Part(name="litdata_optimize", evaluate=eval_frameworks_optimize, strategy=strategy_frameworks, summarize=summarize_frameworks,
